@@ -78,7 +78,7 @@ def instructions(text, repo=None, timeout=900, mode="parse", stop_at_error=False
         env = dict(os.environ, PYTHONHASHSEED="0", PYTHONDONTWRITEBYTECODE="1")
         env.pop("PYTHONPATH", None)
         try:
-            p = subprocess.run(["valgrind", "--tool=cachegrind", "--cache-sim=no", "--cachegrind-out-file=/dev/null", sys.executable, "-S", child, repo, src] + (["1" if stop_at_error else "0"] if mode != "parse" else []),
+            p = subprocess.run(["valgrind", "--tool=cachegrind", "--vgdb=no", "--cache-sim=no", "--cachegrind-out-file=/dev/null", sys.executable, "-S", child, repo, src] + (["1" if stop_at_error else "0"] if mode != "parse" else []),
                                capture_output=True, text=True, env=env, timeout=timeout, cwd=d)  # fmt: skip
         except subprocess.TimeoutExpired:
             raise Unavailable("valgrind run exceeded %d s" % timeout)
